@@ -3,6 +3,7 @@ import ScnrVerif.Model.SpecFind
 import ScnrVerif.Model.SpecIter
 import ScnrVerif.Model.Equiv
 import ScnrVerif.Model.SpecPat
+import ScnrVerif.Model.Class
 import Std.Data.HashMap
 /-!
 # Line-protocol driver for the executable model (`lake exe scnr_model < case.in`)
@@ -42,6 +43,10 @@ structure DState where
   pats : Array (List (Nat × Re)) := #[]
   /-- per mode: lookahead patterns `(tid, re)` -/
   lapats : Array (List (Nat × Re)) := #[]
+  /-- C08: tables of the named primitives, the class expression, the real table -/
+  etables : Array (List (Nat × Nat)) := #[]
+  cls : Option (Bool × CSet) := none
+  real : List (Nat × Nat) := []
   /-- auxiliary automata (minimizer input / output) -/
   aux : Array Dfa := #[]
   iters : Array Iter := #[]
@@ -282,6 +287,38 @@ where
     | 0, r => some ([], r)
     | n + 1, r => (parseAst r).bind fun (x, r') => (parseMany n r').map fun (xs, r'') => (x :: xs, r'')
 
+-- Parser of class expressions: items `e | l c vd | r lo hi | n id neg | b neg <set> | u <item> <item>`,
+-- sets `I <item> | O k <set> <set>`.
+mutual
+partial def parseItem : List String → Option (CItem × List String)
+  | "e" :: r => some (.empty, r)
+  | "l" :: c :: vd :: r =>
+    match c.toNat?, vd.toNat? with
+    | some c, some vd => some (.lit c (vd != 0), r)
+    | _, _ => none
+  | "r" :: lo :: hi :: r =>
+    match lo.toNat?, hi.toNat? with
+    | some lo, some hi => some (.range lo hi, r)
+    | _, _ => none
+  | "n" :: id :: ng :: r =>
+    match id.toNat?, ng.toNat? with
+    | some id, some ng => some (.named id (ng != 0), r)
+    | _, _ => none
+  | "b" :: ng :: r =>
+    match ng.toNat? with
+    | some ng => (parseSet r).map fun (s, r') => (.bracketed (ng != 0) s, r')
+    | none => none
+  | "u" :: r =>
+    (parseItem r).bind fun (a, r1) => (parseItem r1).map fun (b, r2) => (.union a b, r2)
+  | _ => none
+partial def parseSet : List String → Option (CSet × List String)
+  | "I" :: r => (parseItem r).map fun (i, r') => (.item i, r')
+  | "O" :: k :: r =>
+    let op : Option BinOp := match k with | "0" => some .inter | "1" => some .diff | "2" => some .symdiff | _ => none
+    op.bind fun op => (parseSet r).bind fun (l, r1) => (parseSet r1).map fun (rr, r2) => (.binop op l rr, r2)
+  | _ => none
+end
+
 def showWord (w : List Nat) : String := " ".intercalate (w.map toString)
 
 /-- State of the fast (untrusted) explorer: pairs, their index, successor hints, BFS parents. -/
@@ -461,6 +498,40 @@ def step (st : DState) (line : String) : DState × Option String :=
       (st, some s!"equivdfa DIFF\nS FAIL the minimized automaton has more states ({B.numStates}) than before ({A.numStates})")
     else
       (st, some ("\n".intercalate (runEquiv (dfaSys A (cmT T)) (dfaSys B (cmT T)) reps [0] [0] true "equivdfa")))
+  | "eclass" :: id :: r =>
+    match id.toNat? with
+    | some i => ({ st with etables := (ensure st.etables i []).set! i (pairs (nats r)) }, none)
+    | none => (st, some "bad-op")
+  | "cls" :: ng :: r =>
+    match ng.toNat?, parseSet r with
+    | some ng, some (s, []) => ({ st with cls := some (ng != 0, s) }, none)
+    | _, _ => (st, some "bad-op")
+  | "real" :: r => ({ st with real := pairs (nats r) }, none)
+  | ["classcheck"] =>
+    match st.cls with
+    | none => (st, some "bad-op")
+    | some (ng, s) =>
+      let E := st.etables.toList
+      -- model: the mirror of match_function.rs evaluated on the representatives
+      let reps := mkReps (st.real :: scalarTable :: [(10, 10)] :: [(13, 13)] :: (s.tables ++ E))
+      let bad := reps.find? fun b => inRanges st.real b != (inRanges scalarTable b && evalSetN (cmT E) ng s b)
+      let model := match bad with
+        | none => "classcheck ok"
+        | some b => s!"classcheck DIFF at code point {b}"
+      -- specification: the set algebra
+      let spec :=
+        if classCheck E ng s st.real then "S ok"
+        else
+          let reps2 := mkReps (st.real :: scalarTable :: (s.tables ++ E))
+          let w := reps2.find? fun b => inRanges st.real b != (inRanges scalarTable b && (denSet (cmT E) s b != ng))
+          -- the finding F3 explains the failure only if the mirror with the special case agrees
+          let dot := if !s.noVerbDot && bad.isNone then " (class item = verbatim literal `.`)" else ""
+          s!"S FAIL membership of code point {w.getD 0} differs from the set algebra of the items{dot}"
+      (st, some (model ++ "\n" ++ spec))
+  | "asciicheck" :: r =>
+    let expected := pairs (nats r)
+    let ok := (List.range 128).all fun c => inRanges st.real c == inRanges expected c
+    (st, some (if ok then "asciicheck ok\nS ok" else "asciicheck DIFF\nS FAIL ASCII restriction of a Perl class differs"))
   | "input" :: r => ({ st with input := nats r, iters := #[], specs := #[], table := #[] }, none)
   | ["finder", "model"] => ({ st with useTable := false }, none)
   | ["finder", "table"] => ({ st with useTable := true }, none)
